@@ -306,12 +306,16 @@ func genC08(seed uint64, i int, tier string) *Scenario {
 	if r.Chance(0.003) {
 		// scale: result sizes and batch sizes around 256 / 1000
 		b = pick(r, []int{64, 255, 256, 257, 1000})
-		rr = pick(r, []int{255, 256, 257, 300, 520, 1001})
-		s = pick(r, []int{0, 1, 255, 256, 257, rr - 1, rr, b, b + 1})
-		n = pick(r, []int{1, 255, 256, 257, rr, rr - s, 2})
+		rr = pick(r, []int{255, 256, 257, 300, 520, 1001, 1024, 1025, 1100})
+		s = pick(r, []int{0, 1, 255, 256, 257, rr - 1, rr, b, b + 1, 3, 1023, 1024})
+		n = pick(r, []int{1, 255, 256, 257, rr, rr - s, 2, 40})
 		if n < 0 {
 			n = 0
 		}
+	}
+	if r.Chance(0.01) {
+		// counts at the edge of the integer types ("everything from the offset on")
+		n = pick(r, []int{2147483647, 2147483648, 4294967296, 9223372036854775807, 9223372036854775806})
 	}
 	return c08Build(r, gridPt{fam: i % len(c08Families), mode: (i / len(c08Families)) % 2, b: b, r: rr, s: s, n: n})
 }
@@ -364,6 +368,9 @@ func runC08(sc *Scenario, st *Stats) []Violation {
 		return mk("limited-failed", fmt.Sprintf("the unlimited statement completed with %d rows but the limited one failed: %s%s%s stepcap=%v", len(U.Rows), L.BuildErr, L.Err, L.Panic, L.StepCap))
 	}
 	lo, hi := lc.Off, lc.Off+lc.Cnt
+	if hi < lo { // offset + count beyond the integer range: everything from the offset on
+		hi = len(U.Rows)
+	}
 	if lo > len(U.Rows) {
 		lo = len(U.Rows)
 	}
@@ -432,7 +439,7 @@ func c08class(lc *LimitCase, b, nU int) string {
 		cc = "n=0"
 	case lc.Off+lc.Cnt == nU:
 		cc = "s+n=R"
-	case lc.Off+lc.Cnt > nU:
+	case lc.Off+lc.Cnt > nU || lc.Off+lc.Cnt < lc.Off:
 		cc = "s+n>R"
 	}
 	return oc + " " + cc
